@@ -317,7 +317,7 @@ func cmdCheck(args []string) int {
 		if st.PathLimitHit {
 			total.PathLimitHit = true
 		}
-		fmt.Printf("  %-44s paths=%d ends=%v obligations=%d discharged=%d candidates=%d known=%d queries=%d%s wall=%.1fs\n", h, st.Paths, st.ByEnd, st.Obligations, st.Discharged, len(st.Violations), len(st.KnownHits), st.Queries, crossNote(st), st.Wall.Seconds())
+		fmt.Printf("  %-44s paths=%d ends=%v obligations=%d discharged=%d candidates=%d known=%d queries=%d%s wall=%.1fs\n", h, st.Paths, st.ByEnd, st.Obligations, st.Discharged, st.NViol, st.NKnown, st.Queries, crossNote(st), st.Wall.Seconds())
 	}
 
 	// collect witnesses for native replay
